@@ -67,7 +67,7 @@ fn dumps_agree(a: &str, b: &str, tolerant: bool) -> bool {
         if x == y {
             return true;
         }
-        if x.starts_with('s') && y.starts_with('s') {
+        if (x.starts_with('s') && y.starts_with('s')) || (x.starts_with('S') && y.starts_with('S')) {
             let mut u: Vec<char> = x.chars().collect();
             let mut v: Vec<char> = y.chars().collect();
             u.sort();
